@@ -739,12 +739,25 @@ func (lb *LoadBalancer) proxyRequest(backend *Backend, w http.ResponseWriter, r 
 		statusCode:     http.StatusOK, // Default status code
 	}
 
+	// ReverseProxy aborts a response it cannot finish (backend reset or
+	// truncated body, client gone) by panicking with http.ErrAbortHandler
+	// when it runs behind an http.Server. The connection gauge and the
+	// counters must be settled on that path too.
+	completed := false
+	defer func() {
+		// Decrement the connection count when done
+		backend.DecrementConnections()
+		lb.metricsCollector.UpdateBackendConnections(backend.Name, backend.GetActiveConnections())
+		if !completed {
+			responseTime := time.Since(startTime)
+			lb.metricsCollector.RecordResponse(false, responseTime)
+			lb.metricsCollector.RecordBackendRequest(backend.Name, false, responseTime)
+		}
+	}()
+
 	// Forward the request to the selected backend
 	backend.ReverseProxy.ServeHTTP(rw, r)
-
-	// Decrement the connection count when done
-	backend.DecrementConnections()
-	lb.metricsCollector.UpdateBackendConnections(backend.Name, backend.GetActiveConnections())
+	completed = true
 
 	// Record metrics and handle passive health checks
 	lb.recordRequestMetrics(backend, rw.statusCode, startTime, r)
